@@ -285,6 +285,56 @@ def close(a, b, tol=1e-9):
     a, b = np.asarray(a), np.asarray(b)
     return a.shape == b.shape and bool(np.all(np.abs(a - b) <= tol * (1.0 + np.abs(b))))
 
+
+# ------------------------------------------------------------------------------------------------
+# special parameter vectors: points where the summed Hamiltonian of a multi-parameter block is degenerate
+SPECIAL_VALUES = [0.0, np.pi / 2, np.pi, -np.pi, 2 * np.pi, 0.7, 1e-12, -1e-12]
+PAULI_FAMILIES = {1: [["X", "Z"], ["X", "Y", "Z"], ["Z", "Z"]],
+                  2: [["ZI", "IX"], ["XX", "ZI"], ["ZZ", "XI", "IX"], ["XX", "YY"]],
+                  3: [["ZII", "IXI", "IIY"], ["XXI", "IZZ"]]}
+
+
+def special_angles(rng, nfree, count):
+    """vectors with vanishing / equal / pi-multiple / 1e-12-separated coordinates (all zeros first)"""
+    if nfree == 0:
+        return
+    out = [[0.0] * nfree, [0.7] * nfree, [np.pi] * nfree,
+           [(1e-12 if j % 2 else 0.0) for j in range(nfree)],
+           [0.7 + (1e-12 if j % 2 else 0.0) for j in range(nfree)]]
+    for j in range(min(nfree, 3)):                      # one coordinate switched on / off
+        out.append([0.9 if i == j else 0.0 for i in range(nfree)])
+        out.append([0.0 if i == j else 0.4 + 0.3 * i for i in range(nfree)])
+    seen, k = set(), 0
+    for a in out:
+        if tuple(a) not in seen and k < count:
+            seen.add(tuple(a))
+            k += 1
+            yield a
+    tries = 0
+    while k < count and tries < 20 * count:
+        tries += 1
+        a = [rng.choice(SPECIAL_VALUES) if rng.random() < 0.7 else round(rng.uniform(-6.0, 6.0), 3) for _ in range(nfree)]
+        if tuple(a) not in seen:
+            seen.add(tuple(a))
+            k += 1
+            yield a
+
+
+def pauli_witness(rng, n):
+    """structure with a multi-parameter Pauli-string ParameterizedHamiltonian (degenerate at many special points)"""
+    nq = 1 + n % 3
+    fam = PAULI_FAMILIES[nq][(n // 3) % len(PAULI_FAMILIES[nq])]
+    blocks = []
+    if n % 4 == 1:
+        blocks.append({"kind": "h", "nterms": 0, "initial": True})
+    if n % 4 == 2:
+        blocks.append({"kind": "u", "nterms": 0, "initial": False})
+    blocks.append({"kind": "p", "nterms": len(fam), "initial": False, "paulis": list(fam)})
+    if n % 5 == 3:
+        fam2 = PAULI_FAMILIES[nq][(n // 3 + 1) % len(PAULI_FAMILIES[nq])]
+        blocks.append({"kind": "p", "nterms": len(fam2), "initial": False, "paulis": list(fam2)})
+    return {"nq": nq, "layers": 1 + (n // 2) % 2, "blocks": blocks, "seed": 7000 + n}
+
 class Word:
     """element of the free monoid; the Qobj identity that starts both lists acts as the empty word"""
 
@@ -392,7 +442,9 @@ class C19(PropertyCheck):
             "vector, index list); all structures of <= 2 blocks (quick) / <= 3 blocks (thorough) over {h,u,n,p1,p2} x initial, "
             "every subset of indices when <= 3 free parameters (sampled beyond), then random longer structures and a malformed "
             "stream (wrong vector length, negative/duplicate/out-of-range indices, 0-term Hamiltonians, function blocks), the cost "
-            "configurations (cost_method x observable set/None x cost_func set/None); every in-class case that returns is also "
+            "configurations (cost_method x observable set/None x cost_func set/None), special parameter vectors (all zeros, equal / "
+            "vanishing coordinates, multiples of pi/2, coordinates 1e-12 apart; Pauli-string multi-parameter blocks whose summed "
+            "Hamiltonian is degenerate there); every in-class case that returns is also "
             "re-evaluated numerically (propagators, derivative matrices, cost, jacobian values); "
             "non-trivial = at least one free parameter and (>= 2 series entries or a multi-parameter block)")
 
@@ -412,7 +464,7 @@ class C19(PropertyCheck):
         if "cm" in w or "obs" in w:
             line += f" obs={int(bool(w.get('obs', 1)))} cm={w.get('cm', 'o')}"
             inp.update(cm=w.get("cm", "o"), obs=int(bool(w.get("obs", 1))))
-        model = ctx.driver("drv_vqa").run([line])[0]
+        model, circ_line = ctx.driver("drv_vqa").run([line, f"circuit layers={L} blocks={enc_blocks(blocks)} nangles={m}"])
         status, jac, log = instrumented_jac(v, np.array(angles) if as_array else angles, idx)
         wit = dict(w, angles=angles, indices=idx)
         res.case(inp, nontrivial=nontrivial, tags=tags + ["verdict=" + ("ok" if status == "ok" else status.split(":")[0])])
@@ -432,20 +484,19 @@ class C19(PropertyCheck):
             res.disagree(inp, model, impl, "jacobian entries (k:block:start:n:term) or verdict", wit)
             return
         if status == "ok" and self.in_class(w):
-            bad = self._semantic(ctx, w, v, angles, model, log, jac)
+            bad = self._semantic(ctx, w, v, angles, model, log, jac, circ_line)
             res.hist["semantic-evaluated"] = res.hist.get("semantic-evaluated", 0) + 1
             res.hist["semantic-entries"] = res.hist.get("semantic-entries", 0) + len(jac)
             if bad:
                 res.disagree(inp, bad[1], bad[2], "matrix semantics (Lemmas/VqaSem.lean): " + bad[0], wit)
 
-    def _semantic(self, ctx, w, v, angles, model, log, jac):
+    def _semantic(self, ctx, w, v, angles, model, log, jac, circ):
         """numpy evaluation of SBlock.unitary / dUnitary / props / costOf / jacValue at the model's indices,
         compared with the implementation's propagators, derivative matrices, cost and jacobian (1e-9).
         -> None or (what, model value, implementation value)"""
         nq, L = w["nq"], w["layers"]
         d = 2 ** nq
         sem = [SemBlock(b, nq) for b in v.blocks]
-        circ = ctx.driver("drv_vqa").run([f"circuit layers={L} blocks={enc_blocks(w['blocks'])} nangles={len(angles)}"])[0]
         body = circ[3:].strip()
         gates = []
         for g in (body.split(";") if body else []):
@@ -603,6 +654,63 @@ class C19(PropertyCheck):
             self._compare(ctx, res, w, v, m, idx, tags=["malformed=" + mode])
         self._compare_words(ctx, res)
         self._compare_costcfg(ctx, res)
+        self._special_pass(ctx, res)
+
+    def _compare_special(self, ctx, res, w, v, angles, tags=()):
+        """compute_jac at a special parameter vector (zeros, equal, pi-multiples, 1e-12 apart; coordinates need not be
+        distinct, so the slices are not re-identified here — they are for the same structure at the generic vector):
+        verdict and number of entries against the model, then the numerical re-evaluation of the proved semantics"""
+        blocks, L = w["blocks"], w["layers"]
+        m = len(angles)
+        inp = {"nq": w["nq"], "layers": L, "blocks": enc_blocks(blocks), "special_angles": [float(a) for a in angles],
+               "paulis": [b.get("paulis") for b in blocks if b.get("paulis")], "seed": w.get("seed")}
+        wit = dict(w, angles=[float(a) for a in angles], indices=None)
+        model, circ_line = ctx.driver("drv_vqa").run([f"jac layers={L} blocks={enc_blocks(blocks)} nangles={m} idx=default orig=0",
+                                                      f"circuit layers={L} blocks={enc_blocks(blocks)} nangles={m}"])
+        status, jac, log = instrumented_jac(v, list(angles), None)
+        res.case(inp, nontrivial=True, tags=list(tags) + ["special-angles"])
+        if status != "ok" or not model.startswith("ok"):
+            if model.rstrip() != ("err " + status if status != "ok" else "ok"):
+                res.disagree(inp, model, status, "verdict at a special parameter vector", wit)
+            return
+        bad = self._semantic(ctx, w, v, list(angles), model, log, jac, circ_line)
+        res.hist["semantic-evaluated"] = res.hist.get("semantic-evaluated", 0) + 1
+        res.hist["semantic-entries"] = res.hist.get("semantic-entries", 0) + len(jac)
+        if bad:
+            res.disagree(inp, bad[1], bad[2], "matrix semantics at a special parameter vector (Lemmas/VqaSem.lean): " + bad[0], wit)
+
+    def _special_pass(self, ctx, res):
+        rng = ctx.rng
+        # Pauli-string multi-parameter blocks: every vector over the special values when <= 3 parameters (sampled beyond)
+        for n in range(36 if ctx.thorough else 18):
+            w = pauli_witness(rng, n)
+            v = build_vqa(w)
+            nfree = nfree_of(w)
+            self._compare_static(ctx, res, w, v, nfree)
+            self._compare(ctx, res, w, v, nfree, None, tags=["pauli"])
+            vals = [0.0, np.pi / 2, np.pi, 0.7, 1e-12]
+            if nfree <= (3 if ctx.thorough else 2):
+                vecs = [list(c) for c in itertools.product(vals, repeat=nfree)]
+            else:
+                vecs = list(special_angles(rng, nfree, 40 if ctx.thorough else 14))
+            for a in vecs:
+                self._compare_special(ctx, res, w, v, a, tags=["pauli"])
+        # random-Hermitian structures with a multi-parameter block: zeros, equal, switched-off terms, 1e-12 apart
+        k = 0
+        for blocks in structures(2):
+            if not any(b["kind"] == "p" and b["nterms"] >= 2 for b in blocks):
+                continue
+            for L in (1, 2):
+                k += 1
+                w = {"nq": 1 + k % 3, "layers": L, "blocks": blocks, "seed": 8000 + k}
+                v = build_vqa(w)
+                for a in special_angles(rng, nfree_of(w), 8 if ctx.thorough else 3):
+                    self._compare_special(ctx, res, w, v, a, tags=["herm"])
+        for t in range(120 if ctx.thorough else 25):
+            w = self._random_witness(rng)
+            v = build_vqa(w)
+            for a in special_angles(rng, nfree_of(w), 4):
+                self._compare_special(ctx, res, w, v, a, tags=["random"])
 
     def _compare_costcfg(self, ctx, res):
         """cost_method x cost_observable set/None x cost_func set/None: compute_jac ignores cost_method and cost_func,
@@ -702,15 +810,34 @@ class C19(PropertyCheck):
         return False, f"{len(want)} entries agree with central differences"
 
     def _oracle_witness(self, rng):
-        w = self._random_witness(rng, maxblocks=4)
+        if rng.random() < 0.3:
+            w = pauli_witness(rng, rng.randint(0, 10 ** 4))
+        else:
+            w = self._random_witness(rng, maxblocks=4)
         nfree = nfree_of(w)
         if nfree and rng.random() < 0.4:
             w["indices"] = sorted(rng.sample(range(nfree), rng.randint(0, nfree)))
+        if nfree and rng.random() < 0.5:      # zeros / equal / pi-multiples / 1e-12 apart instead of a generic vector
+            vecs = list(special_angles(rng, nfree, 12))
+            w["angles"] = [float(a) for a in rng.choice(vecs)]
         return w
+
+    def _special_witnesses(self, rng, count):
+        """systematic: Pauli-string multi-parameter blocks at the origin and at vectors with vanishing coordinates"""
+        for n in range(count):
+            w = pauli_witness(rng, n)
+            for a in special_angles(rng, nfree_of(w), 6):
+                yield dict(w, angles=[float(x) for x in a])
 
     def oracle_search(self, ctx, budget_s):
         t0 = time.time()
         n = 0
+        for w in self._special_witnesses(ctx.rng, 12):
+            f, d = self.oracle_replay(ctx, w)
+            if f:
+                yield w, d
+            if time.time() - t0 > budget_s / 2:
+                break
         for blocks in structures(2):
             for L in (1, 2):
                 n += 1
@@ -727,6 +854,10 @@ class C19(PropertyCheck):
                 yield w, d
 
     def oracle_always(self, ctx):
+        for w in self._special_witnesses(ctx.rng, 12 if ctx.thorough else 4):
+            f, d = self.oracle_replay(ctx, w)
+            if f:
+                yield w, d
         for _ in range(60 if ctx.thorough else 25):
             w = self._oracle_witness(ctx.rng)
             f, d = self.oracle_replay(ctx, w)
